@@ -29,6 +29,22 @@
    is documented as UTF-8 - on either stack and through either handler entry point (deserialize /
    deserialize_async / the ASGI fast path): ContentTypeParametersAreIrrelevant, so they do not occur in
    Deserialize.
+   How the request DECLARES its body length is part of `framing`, too: "length" always means an explicit
+   Content-Length header (Content-Length: 0 for an empty body); "absent" is a request without any
+   Content-Length / Transfer-Encoding header whose ASGI body events / wsgi.input are empty; "blank" is a
+   Content-Length header with a blank value (what wsgiref puts into CONTENT_LENGTH when the client sent
+   none).  A request that declares no body has none (Init), and that is all a declaration says: WHAT an
+   empty body means is decided by the handler alone (HandlerDecidesEmpty, switch of the same name): JSON
+   documents the media-not-found error (or the caller's default), the form handler the empty mapping -
+   default or not, first access or later, get_media() or the property.
+   "The same error" is the same error AS OBSERVED BY AN APPLICATION: the projection [type, title, desc,
+   cause] of the error the first parse produced is part of the cache, and every later access - in the
+   responder, inside an except block (handling an unrelated exception or the media error itself), in a
+   middleware probing req.media before the responder, in an error handler after the error propagated -
+   observes exactly that projection (LaterAccessesObserveFirstError, switch KeepFirstError).  For the
+   malformed-media error the description carries the parser's message, taken from the exception's cause:
+   an error "of the same kind" built anew, or re-raised with its cause cut off, is NOT the same error.
+   The access context `cx` never occurs in what an access answers (ContextIsIrrelevant).
    One action per public access: get_media() / get_media(default_when_empty=X) / the media property.
    Implementation-shaped rules are named: StreamIsConsumedByParse, ErrorsAreCached (switch
    CacheError), DefaultIsNotCached (switch CacheDefault), UnsupportedIsNotCached.               *)
@@ -40,23 +56,40 @@ CONSTANTS Stacks,        \* {"wsgi", "asgi"}: the same model for both (the harne
           HandlerOf,     \* [CTypes -> {"json", "form", "none"}]
           BodyKinds,
           CacheError,    \* TRUE = design; FALSE = wrong design "a failed parse is not remembered"
-          CacheDefault   \* FALSE = design; TRUE = wrong design "the caller's default is remembered as the media"
+          CacheDefault,  \* FALSE = design; TRUE = wrong design "the caller's default is remembered as the media"
+          HandlerDecidesEmpty,  \* TRUE = design; FALSE = wrong design "a request that declares no body is answered in front of
+                                \* the handler: media-not-found / the caller's default, whatever the handler documents"
+          KeepFirstError,       \* TRUE = design; FALSE = wrong design "later accesses raise an error of the same kind built anew
+                                \* (or with its cause cut off): the parser's message is gone from what the application sees"
+          Contexts       \* where an access happens: "plain" | "except" | "exceptself" | "mw" | "errh"
 
 VARIABLES stack, framing, ctype, body,
           cache,      \* [k: "unset" | "val" | "err", ek: error kind, v: value tag]
           consumed,   \* the body stream has been read to its end
           parses,     \* number of deserialisation attempts so far
-          last        \* the last access and what it gave
+          last,       \* the last access and what it gave
+          firstp      \* projection of the first (cacheable) error an access observed; NoProj before that
 
-vars == <<stack, framing, ctype, body, cache, consumed, parses, last>>
+vars == <<stack, framing, ctype, body, cache, consumed, parses, last, firstp>>
 
 Handler == HandlerOf[ctype]
 
 (* what a handler documents for a body, as [k, ek, v]:  v = "doc" the document that was serialised,
    "empty" the handler's empty value (form: an empty mapping), "dflt" the caller's default *)
-Val(v)  == [k |-> "val", ek |-> "none", v |-> v]
-Err(ek) == [k |-> "err", ek |-> ek, v |-> "none"]
-Unset   == [k |-> "unset", ek |-> "none", v |-> "none"]
+(* the error as an application observes it: exception type, title, description, kind of __cause__ *)
+NoProj == [type |-> "none", title |-> "none", desc |-> "none", cause |-> "none"]
+ProjOf(ek) ==
+    CASE ek = "notfound"    -> [type |-> "MediaNotFoundError", title |-> "invalid-media", desc |-> "empty-body", cause |-> "none"]
+      [] ek = "malformed"   -> [type |-> "MediaMalformedError", title |-> "invalid-media", desc |-> "could-not-parse+parser-message", cause |-> "parser"]
+      [] ek = "custom"      -> [type |-> "handlers-own", title |-> "none", desc |-> "handlers-own", cause |-> "none"]
+      [] ek = "unsupported" -> [type |-> "HTTPUnsupportedMediaType", title |-> "unsupported", desc |-> "unsupported", cause |-> "none"]
+      [] OTHER              -> NoProj
+(* wrong design: an error of the same kind without the first one's cause *)
+Rebuilt(p) == IF p.cause = "none" THEN p ELSE [p EXCEPT !.desc = "could-not-parse", !.cause = "none"]
+
+Val(v)  == [k |-> "val", ek |-> "none", v |-> v, p |-> NoProj]
+Err(ek) == [k |-> "err", ek |-> ek, v |-> "none", p |-> ProjOf(ek)]
+Unset   == [k |-> "unset", ek |-> "none", v |-> "none", p |-> NoProj]
 
 Empty(b) == b = "empty"          \* i.e. Len(body) = 0; a body of whitespace has Len > 0
 
@@ -74,45 +107,57 @@ StatusOf(ek) == CASE ek = "notfound" -> 400 [] ek = "malformed" -> 400 [] ek = "
 
 (* out: "val" | "dflt" | "err";  same: the very object/error of the first answer;  touched: this
    access read from the body stream *)
-Rec(op, d, out, ek, v, same, touched) ==
-    [op |-> op, d |-> d, out |-> out, ek |-> ek, v |-> v, status |-> StatusOf(ek), same |-> same, touched |-> touched]
+Rec(op, d, cx, out, ek, v, same, touched, p) ==
+    [op |-> op, d |-> d, cx |-> cx, out |-> out, ek |-> ek, v |-> v, status |-> StatusOf(ek), same |-> same, touched |-> touched, p |-> p]
+InitRec == Rec("init", FALSE, "plain", "none", "none", "none", FALSE, FALSE, NoProj)
+
+(* the request says in its headers that there is no body (a chunked request says nothing) *)
+NoBodyDeclared == framing \in {"absent", "blank"} \/ (framing = "length" /\ Empty(body))
 
 TypeOK == /\ cache.k \in {"unset", "val", "err"} /\ parses \in 0..100 /\ consumed \in BOOLEAN
 
 Init == /\ stack \in Stacks /\ framing \in Framings[stack] /\ ctype \in CTypes /\ body \in BodyKinds
         /\ (HandlerOf[ctype] = "form" => body # "truncated")
         /\ (body \in {"hookfail", "blank", "padded"} => HandlerOf[ctype] = "json")
+        /\ (framing \in {"absent", "blank"} => Empty(body))        \* a request that declares no body has none
         /\ cache = Unset /\ consumed = FALSE /\ parses = 0
-        /\ last = Rec("init", FALSE, "none", "none", "none", FALSE, FALSE)
+        /\ last = InitRec /\ firstp = NoProj
 
-(* op: "get" (the method) or "media" (the property, never with a default);  d: a default was given *)
-Access(op, d) ==
+(* op: "get" (the method) or "media" (the property, never with a default);  d: a default was given;
+   cx: where the access happens - it occurs in the record only (ContextIsIrrelevant) *)
+Answer(rec) ==
+    /\ last' = rec
+    /\ firstp' = IF firstp = NoProj /\ rec.out = "err" /\ rec.ek # "unsupported" THEN rec.p ELSE firstp
+
+Access(op, d, cx) ==
     IF cache.k = "val"
-    THEN /\ last' = Rec(op, d, "val", "none", cache.v, TRUE, FALSE)
+    THEN /\ Answer(Rec(op, d, cx, "val", "none", cache.v, TRUE, FALSE, NoProj))
          /\ UNCHANGED <<stack, framing, ctype, body, cache, consumed, parses>>
     ELSE IF cache.k = "err"
-    THEN /\ last' = IF d /\ cache.ek = "notfound" THEN Rec(op, d, "dflt", "none", "dflt", FALSE, FALSE)
-                    ELSE Rec(op, d, "err", cache.ek, "none", TRUE, FALSE)
+    THEN /\ Answer(IF d /\ cache.ek = "notfound" THEN Rec(op, d, cx, "dflt", "none", "dflt", FALSE, FALSE, NoProj)
+                   ELSE Rec(op, d, cx, "err", cache.ek, "none", TRUE, FALSE,
+                            IF KeepFirstError THEN cache.p ELSE Rebuilt(cache.p)))    \* LaterAccessesObserveFirstError
          /\ UNCHANGED <<stack, framing, ctype, body, cache, consumed, parses>>
     ELSE IF Handler = "none"
     THEN (* UnsupportedIsNotCached: the 415 is raised before anything is read or remembered *)
-         /\ last' = Rec(op, d, "err", "unsupported", "none", FALSE, FALSE)
+         /\ Answer(Rec(op, d, cx, "err", "unsupported", "none", FALSE, FALSE, ProjOf("unsupported")))
          /\ UNCHANGED <<stack, framing, ctype, body, cache, consumed, parses>>
     ELSE LET seen == IF consumed THEN "empty" ELSE body          \* StreamIsConsumedByParse
-             r == Deserialize(Handler, seen)
+             r == IF ~HandlerDecidesEmpty /\ NoBodyDeclared THEN Err("notfound")     \* wrong design
+                  ELSE Deserialize(Handler, seen)                                     \* HandlerDecidesEmpty
              dflt == d /\ r.k = "err" /\ r.ek = "notfound"
          IN  /\ parses' = parses + 1 /\ consumed' = TRUE
              /\ cache' = IF r.k = "val" THEN r
                          ELSE IF dflt /\ CacheDefault THEN Val("dflt")            \* wrong design
                          ELSE IF CacheError THEN r ELSE Unset                     \* ErrorsAreCached
-             /\ last' = IF r.k = "val" THEN Rec(op, d, "val", "none", r.v, TRUE, ~consumed)
-                        ELSE IF dflt THEN Rec(op, d, "dflt", "none", "dflt", FALSE, ~consumed)   \* DefaultIsNotCached
-                        ELSE Rec(op, d, "err", r.ek, "none", TRUE, ~consumed)
+             /\ Answer(IF r.k = "val" THEN Rec(op, d, cx, "val", "none", r.v, TRUE, ~consumed, NoProj)
+                       ELSE IF dflt THEN Rec(op, d, cx, "dflt", "none", "dflt", FALSE, ~consumed, NoProj)   \* DefaultIsNotCached
+                       ELSE Rec(op, d, cx, "err", r.ek, "none", TRUE, ~consumed, r.p))
              /\ UNCHANGED <<stack, framing, ctype, body>>
 
-GetMedia        == Access("get", FALSE)
-GetMediaDefault == Access("get", TRUE)
-MediaProperty   == Access("media", FALSE)
+GetMedia        == \E cx \in Contexts : Access("get", FALSE, cx)
+GetMediaDefault == \E cx \in Contexts : Access("get", TRUE, cx)
+MediaProperty   == \E cx \in Contexts : Access("media", FALSE, cx)
 
 Next == GetMedia \/ GetMediaDefault \/ MediaProperty
 Spec == Init /\ [][Next]_vars
@@ -136,5 +181,16 @@ MalformedIs400Class == (Called /\ body \in {"truncated", "badenc", "blank"} /\ H
 CustomErrorIsKept   == (Called /\ body = "hookfail") => (last.out = "err" /\ last.ek = "custom" /\ last.same /\ parses = 1)
 BlankIsNotEmpty     == (Called /\ body = "blank") => (last.out = "err" /\ last.ek = "malformed")     \* also when a default was given
 RoundTrip           == (Called /\ body \in {"valid", "padded"} /\ Handler # "none") => (last.out = "val" /\ last.v = "doc")
+(* every access that raises the (cacheable) error shows the application the error of the first parse *)
+LaterAccessesObserveFirstError ==
+    (Called /\ last.out = "err" /\ last.ek # "unsupported") => (last.p = firstp /\ last.p = cache.p /\ last.p = ProjOf(last.ek))
+MalformedCarriesParserMessage ==
+    (Called /\ last.out = "err" /\ last.ek = "malformed") => (last.p.cause = "parser" /\ last.p.desc = "could-not-parse+parser-message")
+(* whatever the request declares about its length, first access or later, default or not *)
+HandlerDecidesEmptyLaw ==
+    (Called /\ Empty(body) /\ Handler # "none") =>
+        LET r == Deserialize(Handler, "empty") IN
+        IF r.k = "val" THEN last.out = "val" /\ last.v = r.v
+        ELSE IF last.d THEN last.out = "dflt" ELSE (last.out = "err" /\ last.ek = r.ek)
 UnsupportedIs415    == (Called /\ Handler = "none") => (last.out = "err" /\ last.status = 415 /\ parses = 0 /\ ~consumed)
 ===========================================================================
